@@ -1765,6 +1765,8 @@ class SigTables:
             return ('DEmptyDict', None)
         if isinstance(d, ast.List) and not d.elts:
             return ('DEmptyList', None)
+        if isinstance(d, ast.Call) and isinstance(d.func, ast.Name) and d.func.id in ('dict', 'list') and not d.args and not d.keywords:
+            return ('DEmptyDict' if d.func.id == 'dict' else 'DEmptyList', None)      # dict() / list(): the same fresh empty container
         if _sig_mutable_default(d):
             return ('DMutable', ast.unparse(d))
         return ('DOther', ast.unparse(d))
